@@ -215,3 +215,8 @@ def run(ctx, eng):
     ctx.assume('LIVENESS NOT DECIDED: that a zero window does not stay zero '
                'once everything is acknowledged depends on the value of the '
                'threshold expression and on an induction over histories')
+    cm.include(ctx, eng, 'C04', {'FLOW.delta', 'ARITH.open',
+                                 'ARITH.consume', 'FLOW.init'},
+               'window and maximum track what was advertised: a local '
+               'INITIAL_WINDOW_SIZE change reaches every stream, and the '
+               'window arithmetic is exact (it may go negative)')
